@@ -154,7 +154,7 @@ manifest = {
          "kind_free_text": "deterministic simulator around the unmodified agdb_server/src/raft.rs (virtual clock substituted at build time), schedules generated by proptest and by bounded exhaustive enumeration"},
     ],
     "checks": [],
-    "notes": "All checks: exit 0 = held on everything explored (KNOWN-FINDING lines may be printed), 1 = VIOLATION line, 2 = machinery failure. VERIF_SEED selects the pseudo-random campaign; VERIF_WORKERS limits threads.",
+    "notes": "All checks: exit 0 = held on everything explored (KNOWN-FINDING lines may be printed for the entries of known_findings.json), 1 = VIOLATION property=<id> replay=<path> for anything not listed there, 2 = machinery failure (never a verdict). VERIF_SEED selects the pseudo-random campaign; VERIF_WORKERS limits threads / child processes; VERIF_REPO selects another tree than /repo; VERIF_OUT redirects evidence and new replay files. Campaigns that run database code execute in child processes with a 64 MiB single-allocation cap; after the first shrunk unlisted counterexample the other workers stop. Replays: ./check <ID> --replay <file> (JSON replay files and raw libFuzzer artifacts). The thorough tiers of C04, C07, C20 and C21 add a bounded libFuzzer campaign (tools/fuzz.sh). Seeded changes with their detection results are under seeded/; DESIGN.md section 8 and appendices C-H record findings, false alarms and which check catches which change.",
     "not_applicable": [{"property_id": k, "reason": v} for k, v in sorted(NA.items())],
 }
 for pid in sorted(CHECKS):
